@@ -24,8 +24,20 @@ ASSUMPTIONS = ["context objects are only manipulated through the public ContextB
 EXPLANATION = "proof of refinement to flattened layers on the model + per-step differential check of model vs contexts.py"
 
 NAMES = ["x", "$x", "y", "$", "$1", "", "ab", "$ab", "q_"]
-FNAMES_REG = ["f", "g", "f_"]
-FNAMES_Q = ["f", "g", "f_", "g__"]
+FNAMES_REG = ["f", "g", "f_", "fetch_item", "fetchItem"]
+FNAMES_Q = ["f", "g", "f_", "g__", "fetch_item", "fetchItem", "fetch_item_"]
+_CAMEL_RE = __import__("re").compile(r"(?!^)_(\w)", flags=__import__("re").UNICODE)
+
+
+def queries(camel):
+    """[(name the model is asked, name the real context is asked, use_convention)].  With a naming convention
+    installed, a lookup with use_convention=True first rewrites the (right-stripped) name; the harness does the
+    rewriting itself (independent of yaql.language.conventions) and asks the model for the rewritten name."""
+    out = [(n, n, False) for n in FNAMES_Q]
+    for n in FNAMES_Q:
+        m = _CAMEL_RE.sub(lambda t: t.group(1).upper(), n.rstrip("_")) if camel else n
+        out.append((m, n, True))
+    return out
 HASH_MOD = 1 << 63
 
 
@@ -41,7 +53,7 @@ def ser_fids(fs, ids):
     return [len(l)] + l
 
 
-def observe_ctx(c, ids):
+def observe_ctx(c, ids, camel=False):
     out = [1000]
     for n in NAMES:
         v = c[n]
@@ -49,10 +61,10 @@ def observe_ctx(c, ids):
     out.append(2000)
     for k in sorted(c.keys()):
         out += [len(k)] + [ord(ch) for ch in k]
-    for n in FNAMES_Q:
-        fs, ex = c.get_functions(n)
+    for _, n, use in queries(camel):
+        fs, ex = c.get_functions(n, use_convention=use)
         out += [3000] + ser_fids(fs, ids) + [1 if ex else 0]
-        layers = c.collect_functions(n)
+        layers = c.collect_functions(n, use_convention=use)
         out += [4000, len(layers)]
         for l in layers:
             out += ser_fids(l, ids)
@@ -105,10 +117,21 @@ def gen_ops(rng, nctor, nops):
     return ops
 
 
+def is_camel(ops):
+    return bool(ops) and ops[0][0] == "camel"
+
+
+def strip_marker(ops):
+    return ops[1:] if is_camel(ops) else ops
+
+
 def run_impl(ops):
+    camel, ops = is_camel(ops), strip_marker(ops)
     """Execute the op list on the real classes; returns [(outcome, hash)] per op, plus raw
     observations (for replay files)."""
     env, res, fdobj, ids = [], [], {}, {}
+    from yaql.language import conventions
+    conv = conventions.CamelCaseConvention() if camel else None
 
     def fd(spec):
         if spec not in fdobj:
@@ -122,11 +145,11 @@ def run_impl(ops):
         try:
             k = op[0]
             if k == "plain":
-                env.append(contexts.Context(None if op[1] is None else env[op[1]]))
+                env.append(contexts.Context(None if op[1] is None else env[op[1]], convention=conv))
             elif k == "multi":
-                env.append(contexts.MultiContext([env[i] for i in op[1]]))
+                env.append(contexts.MultiContext([env[i] for i in op[1]], convention=conv))
             elif k == "linked":
-                env.append(contexts.LinkedContext(None if op[1] is None else env[op[1]], env[op[2]]))
+                env.append(contexts.LinkedContext(None if op[1] is None else env[op[1]], env[op[2]], convention=conv))
             elif k == "child":
                 env.append(env[op[1]].create_child_context())
             elif k == "set":
@@ -145,7 +168,7 @@ def run_impl(ops):
                 res.append((out, -1, "%s: %r" % (type(e).__name__, e)))
                 return res, False
         try:
-            raw = [x for c in env for x in observe_ctx(c, ids)]
+            raw = [x for c in env for x in observe_ctx(c, ids, camel)]
             res.append((out, hash_list(raw), None))
         except Exception as e:
             res.append((out, -2, "observation raised %s: %r" % (type(e).__name__, e)))
@@ -179,16 +202,18 @@ HEADER = "From YV Require Import Model.Contexts."
 
 
 def case_term(ops, res):
+    camel, ops = is_camel(ops), strip_marker(ops)
     return "{| c_names := %s; c_fnames := %s; c_ops := %s; c_obs := %s |}" % (
-        gal.lst(gal.s(n) for n in NAMES), gal.lst(gal.s(n) for n in FNAMES_Q),
+        gal.lst(gal.s(n) for n in NAMES), gal.lst(gal.s(m) for m, _, _ in queries(camel)),
         gal.lst(op_term(o) for o in ops),
         gal.lst(gal.pair(gal.z(a), gal.z(b)) for a, b, _ in res))
 
 
 def first_divergence(run, ops, res):
+    camel, ops = is_camel(ops), strip_marker(ops)
     """Index of the first op after which model and implementation differ."""
     txt = run.coq_eval(HEADER, "run init_state %s %s %s" % (
-        gal.lst(gal.s(n) for n in NAMES), gal.lst(gal.s(n) for n in FNAMES_Q), gal.lst(op_term(o) for o in ops)))
+        gal.lst(gal.s(n) for n in NAMES), gal.lst(gal.s(m) for m, _, _ in queries(camel)), gal.lst(op_term(o) for o in ops)))
     import re
     pairs = re.findall(r"\(\s*(-?\d+)%?Z?\s*,\s*(-?\d+)%?Z?\s*\)", txt.replace("\n", " "))
     model = [(int(a), int(b)) for a, b in pairs]
@@ -214,7 +239,7 @@ def shrink(run, ops):
     i = len(cur) - 1
     budget = 30
     while i >= 0 and budget > 0:
-        if cur[i][0] in ("set", "del", "reg", "delfn"):
+        if cur[i][0] in ("set", "del", "reg", "delfn") and i > 0:
             cand = cur[:i] + cur[i + 1:]
             budget -= 1
             if differs(cand):
@@ -259,6 +284,8 @@ def correspondence(run):
             ops = corpus[i]
         else:
             ops = gen_ops(run.rng, run.rng.randrange(2, 10), run.rng.randrange(0, 31))
+            if run.rng.random() < 0.5:
+                ops = [("camel",)] + ops        # every context carries the CamelCase naming convention
         res, complete = run_impl(ops)
         kinds = {o[0] for o in ops}
         run.case(ops, nontrivial=bool(kinds & {"multi", "linked"}) and bool(kinds & {"set", "reg"}))
@@ -286,6 +313,8 @@ def load_corpus():
         return []
     def fix(o):
         o = list(o)
+        if o[0] == "camel":
+            return ("camel",)
         if o[0] in ("reg", "delfn"):
             o[2] = tuple(o[2])
         return tuple(o)
